@@ -2,14 +2,15 @@
 # tools/seedall.sh [id-prefix]: re-runs, against the current tree, every confirmed seeded change under seeded/
 # with the checks that were run for it before (first check named in its checks.log per line "== ./check Cnn").
 # Prints one line per change: caught-by / missed / patch no longer applies.  Results go to seeded/REGRESSION.md.
-cd /verif
+V=${VERIF_ROOT:-/verif}; R=${REPO_ROOT:-/repo}
+cd $V
 out=seeded/REGRESSION.md
-echo "# Seeded changes re-run against the tree at $(git -C /repo log --format=%h -1) / verif $(git log --format=%h -1) ($(date -u +%F\ %H:%M))" > $out
+echo "# Seeded changes re-run against the tree at $(git -C $R log --format=%h -1) / verif $(git log --format=%h -1) ($(date -u +%F\ %H:%M))" > $out
 for d in seeded/${1:-}*/; do
   id=$(basename $d)
   [ -s $d/patch.diff ] && grep -q "^confirm:" $d/confirm.log 2>/dev/null && ! grep -q "NOT CONFIRMED" $d/confirm.log || continue
   checks=$(grep -o "^== ./check C[0-9][0-9]" $d/checks.log | awk '{print $3}' | sort -u | tr '\n' ' ')
-  if ! git -C /repo apply --check $d/patch.diff 2>/dev/null; then echo "- $id: patch no longer applies (code changed by later fixes)" | tee -a $out; continue; fi
+  if ! git -C $R apply --check $d/patch.diff 2>/dev/null; then echo "- $id: patch no longer applies (code changed by later fixes)" | tee -a $out; continue; fi
   res=$(./tools/seedtest.sh $id - $checks 2>&1 | grep "^check " | tr '\n' ';')
   echo "- $id: $res" | tee -a $out
 done
